@@ -25,6 +25,7 @@ type lifeOp struct {
 	N    int    `json:"n,omitempty"`    // peer: number of packages
 	Ctx  string `json:"ctx,omitempty"`  // bg, c1, c2, conn, cancelled
 	Wait *bool  `json:"wait,omitempty"` // next: wait flag (default true)
+	Kind string `json:"kind,omitempty"` // peer: "" = DONE(final) packages, "row" = non-final packages (response stays open)
 }
 
 type lifeScn struct {
@@ -210,8 +211,32 @@ func runLife(tr *Tracer, cur *int64, scn *lifeScn) {
 				r.nextVal++
 				v := r.nextVal
 				r.mu.Unlock()
-				r.mc.Feed(mkPacket(4, 1, chid, 0, encDone(tokDone, 0, 0, int32(v)).Bytes))
+				if op.Kind == "row" {
+					r.mc.Feed(mkPacket(4, 0, chid, 0, encRetStat(int32(v)).Bytes)) // no EOM: the response is not finished
+				} else {
+					r.mc.Feed(mkPacket(4, 1, chid, 0, encDone(tokDone, 0, 0, int32(v)).Bytes))
+				}
 			}
+			settle()
+		case "until":
+			// NextPackageUntil whose callback fails on the first non-final package (the library then
+			// consumes the rest of the response) and stops at a final DONE
+			r.start("until", op, func(ctx context.Context) (string, Ev) {
+				cbErr := errors.New("callback failed")
+				pkg, err := ch.NextPackageUntil(ctx, true, func(p tds.Package) (bool, error) {
+					if d, ok := p.(*tds.DonePackage); ok && d.Status == tds.TDS_DONE_FINAL {
+						return true, nil
+					}
+					return false, cbErr
+				})
+				switch {
+				case err == nil && pkg != nil:
+					return "pkg", nil
+				case errors.Is(err, cbErr):
+					return "cberr", nil
+				}
+				return lifeOutcome(err), nil
+			})
 			settle()
 		case "next":
 			wait := op.Wait == nil || *op.Wait
@@ -393,6 +418,11 @@ func lifeMain(args []string) error {
 			scns = append(scns, lifeScn{K: k, Answers: true, Ops: []lifeOp{{Op: "connclose"}, {Op: "next"}, {Op: "send"}}})
 			scns = append(scns, lifeScn{K: k, Answers: true, Late: true, Ops: []lifeOp{{Op: "peer", N: 1}, {Op: "next"}, {Op: "connclose"}, {Op: "next"}}})
 			scns = append(scns, lifeScn{K: k, Answers: true, Chan: 1, Ops: []lifeOp{{Op: "connclose"}, {Op: "next"}}})
+			// a consumer callback fails in mid-response, the peer goes silent, the caller cancels
+			scns = append(scns, lifeScn{K: k + 2, Answers: true, Ops: []lifeOp{{Op: "peer", N: 1, Kind: "row"}, {Op: "until", Ctx: "c1"}, {Op: "cancel", Ctx: "c1"}}})
+			scns = append(scns, lifeScn{K: k + 2, Answers: true, Chan: 1, Ops: []lifeOp{{Op: "until", Ctx: "c1"}, {Op: "peer", N: 2, Kind: "row"}, {Op: "cancel", Ctx: "c1"}}})
+			scns = append(scns, lifeScn{K: k + 2, Answers: true, Ops: []lifeOp{{Op: "peer", N: 1, Kind: "row"}, {Op: "until", Ctx: "c1"}, {Op: "peer", N: 1}}})
+			scns = append(scns, lifeScn{K: k + 2, Answers: true, Ops: []lifeOp{{Op: "peer", N: 1, Kind: "row"}, {Op: "until"}, {Op: "cancel", Ctx: "conn"}}})
 			// sends with cancelled contexts
 			scns = append(scns, lifeScn{K: k, Answers: true, Ops: []lifeOp{{Op: "send", Ctx: "cancelled"}, {Op: "send"}, {Op: "send", Ctx: "cancelled"}}})
 		}
